@@ -119,8 +119,23 @@ class Sym:
 
     # ---- comparisons
     def _cmp(self, o, f, rev=False):
+        if isinstance(o, (list, tuple)) or (isinstance(o, np.ndarray) and o.ndim > 0):
+            # scalar-vs-sequence comparison is element-wise (what np.float64 does)
+            arr = np.asarray(o, dtype=object)
+            out = np.empty(arr.shape, dtype=object)
+            for idx in np.ndindex(arr.shape):
+                out[idx] = self._cmp(arr[idx], f, rev)
+            return out
         if not _liftable(o):
             return NotImplemented
+        if isinstance(o, (float, np.floating)) and (o == float('inf') or o == float('-inf')):
+            # comparison of a real with +-infinity is decided (np.inf is used as an initial 'previous value')
+            big = o > 0
+            name = f.__name__
+            if rev:
+                name = {'lt': 'gt', 'le': 'ge', 'gt': 'lt', 'ge': 'le'}.get(name, name)
+            res = {'lt': big, 'le': big, 'gt': not big, 'ge': not big, 'eq': False, 'ne': True}[name]
+            return Sym(X.bconst(res))
         a, b = self.e, lift(o)
         if rev:
             a, b = b, a
